@@ -30,13 +30,13 @@ MANIFEST = {
     "note": "Two engine states, two agents, two texts, <= 2 episodes per index, histories <= 5-6 steps exhaustively (simulated beyond). The world is chosen so that each dependency component changes the real result; a predicted stale hit that does not change the real result is counted as unconfirmed, not as an alarm. Diagnostics (cache_* counters, max_delta) are excluded as the property says.",
 }
 
-ALL_KEYS = ["t1.content", "t1.state", "t2.view", "t2.k", "t2.day", "t2.graph", "t2.index",
+ALL_KEYS = ["t1.content", "t1.state", "t1.perf", "t2.view", "t2.k", "t2.day", "t2.graph", "t2.index",
             "tl.view", "tl.k", "tl.day", "tl.graph", "tl.mem"]
 # model of the current code: which dependency components its cache keys cover (see DESIGN.md C05)
 KEY_HAS_CURRENT: List[str] = list(ALL_KEYS)   # after the three key fixes (known_findings.json: C05-*)
 
 CAUSE_TO_KEY = {  # (cache, differing dependency) -> key component whose absence explains it
-    ("t1", "gw"): "t1.content", ("t1", "gn"): "t1.content",
+    ("t1", "gw"): "t1.content", ("t1", "gn"): "t1.content", ("t1", "cap"): "t1.perf",
     ("t2", "view"): "t2.view", ("t2", "k"): "t2.k", ("t2", "day"): "t2.day", ("t2", "graph"): "t2.graph", ("t2", "mem"): "t2.index",
     ("tl", "view"): "tl.view", ("tl", "k"): "tl.k", ("tl", "day"): "tl.day", ("tl", "graph"): "tl.graph", ("tl", "mem"): "tl.mem",
     ("tl", "r1"): "tl.graph", ("t2", "r1"): "t1.content",
@@ -56,8 +56,13 @@ def _graphs():
         "edges": [("e1", "n:apple", "n:banana", 0.9, "supports"), ("e2", "n:banana", "n:cherry", 0.9, "supports"),
                   ("e3", "n:cherry", "n:apple", 0.5, "associates")]},
         # a second active graph that matches the same texts: per-graph cache entries are combined per turn
-        "g:two": {"nodes": [("m:apple", "apple", []), ("m:banana", "banana", []), ("m:date", "date", [])],
-                  "edges": [("f1", "m:apple", "m:date", 0.8, "supports"), ("f2", "m:banana", "m:date", 0.7, "associates")]}}
+        # m:apple fans out to three neighbours and the weakest one is the only way to m:grape: the perf
+        # frontier cap of 2 (effective only while perf.enabled) changes what T1 touches
+        "g:two": {"nodes": [("m:apple", "apple", []), ("m:banana", "banana", []), ("m:date", "date", []),
+                            ("m:elder", "elder", []), ("m:fig", "fig", []), ("m:grape", "grape", [])],
+                  "edges": [("f1", "m:apple", "m:date", 0.8, "supports"), ("f2", "m:banana", "m:date", 0.7, "associates"),
+                            ("f3", "m:apple", "m:elder", 0.5, "supports"), ("f4", "m:apple", "m:fig", 0.2, "supports"),
+                            ("f5", "m:fig", "m:grape", 1.0, "supports")]}}
 
 
 def _proj_t1(t1):
@@ -86,6 +91,7 @@ class World:
         self.k = 2
         self.scope = "any"
         self.day = 0
+        self.perf = False
         self.turn = 0
 
     def cfg(self):
@@ -93,7 +99,9 @@ class World:
                 "t2": {"cache": {"enabled": self.cached}, "k_retrieval": self.k, "owner_scope": self.scope, "sim_threshold": -1.0,
                        "ranking": {"alpha_sim": 0.5, "beta_recency": 0.4, "gamma_importance": 0.1}},
                 "t4": {"enabled": not self.kill, "snapshot_dir": self.snapdir, "snapshot_every_n_turns": 1000,
-                       "cache": {"enabled": self.cached}, "cache_bust_mode": "on-apply"}}
+                       "cache": {"enabled": self.cached}, "cache_bust_mode": "on-apply"},
+                # the caps are always configured; the master switch decides whether they are effective
+                "perf": {"enabled": self.perf, "t1": {"caps": {"frontier": 2}}}}
         return self.E.validated_cfg(over)
 
     def env(self, ev):
@@ -122,6 +130,8 @@ class World:
             self.scope = "agent" if self.scope == "any" else "any"
         elif name == "next_day":
             self.day = 1
+        elif name == "toggle_perf":
+            self.perf = not self.perf
 
     def run_turn(self, ev):
         import clematis.engine.orchestrator as orch
